@@ -367,6 +367,15 @@ func (r *messageSetReader) skippedEmptyBatch() (lastOffset int64, ok bool) {
 	return
 }
 
+// batchBaseOffset returns the base offset of the v2 record batch whose header
+// was read last, if any.
+func (r *messageSetReader) batchBaseOffset() (baseOffset int64, ok bool) {
+	if r.empty || r.readerStack == nil || r.header.magic != 2 {
+		return 0, false
+	}
+	return r.header.firstOffset, true
+}
+
 func (r *messageSetReader) discardBytes() (err error) {
 	r.remain, err = discardBytes(r.reader, r.remain)
 	return
